@@ -392,7 +392,6 @@ lp_id_t CountRegions(struct topology *topology)
 lp_id_t CountDirections(lp_id_t from, struct topology *topology)
 {
 	lp_id_t neighbors;
-	uint32_t x, y;
 
 	assert(topology);
 
@@ -403,15 +402,11 @@ lp_id_t CountDirections(lp_id_t from, struct topology *topology)
 
 		case TOPOLOGY_HEXAGON:
 			assert(topology->geometry == TOPOLOGY_HEXAGON);
-			neighbors = 6;
-			y = from / topology->width;
-			x = from - y * topology->width;
-			if(y == 0 || y == topology->height - 1)
-				neighbors -= x == 0 ? 1 : 2;
-			if(x == 0)
-				neighbors -= 3 - 2 * (y & 1U);
-			if(x == topology->width - 1)
-				neighbors -= 3 - 2 * (1 - (y & 1U));
+			// count the directions which actually lead to a region: closed formulas get borders of odd rows
+			// and single-row/single-column grids wrong
+			neighbors = 0;
+			for(size_t i = 0; i < sizeof(directions_hexagon) / sizeof(*directions_hexagon); i++)
+				neighbors += get_neighbor_hexagon(from, topology, directions_hexagon[i]) != INVALID_DIRECTION;
 			return neighbors;
 
 		case TOPOLOGY_TORUS:
@@ -420,13 +415,10 @@ lp_id_t CountDirections(lp_id_t from, struct topology *topology)
 
 		case TOPOLOGY_SQUARE:
 			assert(topology->geometry == TOPOLOGY_SQUARE);
-			neighbors = 4;
-			y = from / topology->width;
-			x = from - y * topology->width;
-			if(x == 0 || x == topology->width - 1)
-				neighbors--;
-			if(y == 0 || y == topology->height - 1)
-				neighbors--;
+			// a region can lack both neighbors along one axis (grids with a single row or column)
+			neighbors = 0;
+			for(size_t i = 0; i < sizeof(directions_square_torus) / sizeof(*directions_square_torus); i++)
+				neighbors += get_neighbor_square(from, topology, directions_square_torus[i]) != INVALID_DIRECTION;
 			return neighbors;
 
 		case TOPOLOGY_BIDRING:
